@@ -111,6 +111,20 @@ func NewParser(srcPath, dstPath string) (*Parser, error) {
 			imports[path] = imported.Name
 		}
 	}
+	// A blank import is listed under its package's name only as long as no other
+	// import bears that name; otherwise a qualifier would resolve to either.
+	for _, spec := range fileSrc.Imports {
+		if spec.Name == nil || spec.Name.Name != "_" {
+			continue
+		}
+		path := strings.Trim(spec.Path.Value, "\"`")
+		for other, name := range imports {
+			if other != path && name == imports[path] {
+				imports[path] = "_"
+				break
+			}
+		}
+	}
 	return &Parser{
 		srcPath: fileSet.Position(fileSrc.Pos()).Filename,
 		fset:    fileSet,
